@@ -102,7 +102,10 @@ pub struct BuildCase {
     /// and dropped. 0 none; 1 same input at another level; 2 the input extended by a character of a wider class;
     /// 3 same length, other content, same options (its buffer is freed just before the input under test is allocated);
     /// 4 the input without its last character; 5 the same input with every option automatic; 6 the input extended by
-    /// a character of the same class. Building is a pure function, so none of this may change the result.
+    /// a character of the same class; 7 a build that panics half-way through encoding (a compact mode forced on content
+    /// derived from the input with one character outside that mode - the crate documents this panic - caught with
+    /// catch_unwind, as an application would); 8 a build that returns an error (the input forced into version 1, or more
+    /// than version 40 holds). Building is a pure function, so none of this may change the result.
     pub pred: u8,
 }
 
@@ -131,7 +134,7 @@ impl BuildCase {
     /// The same case with a builder warm-up derived from `sel` (None for 3 values of `sel` out of 4). Only options
     /// that the final configuration also sets may be set during the warm-up (an option cannot be un-set again).
     pub fn with_warm_sel(mut self, sel: u16) -> Self {
-        self.pred = [0u8, 0, 0, 0, 0, 0, 0, 0, 1, 2, 3, 4, 5, 6, 1, 3][(sel >> 12) as usize & 15];
+        self.pred = [0u8, 0, 0, 0, 0, 0, 0, 7, 1, 2, 3, 4, 5, 6, 8, 7][(sel >> 12) as usize & 15];
         if sel % 4 != 0 {
             return self;
         }
@@ -262,6 +265,36 @@ impl BuildCase {
                 (v, self.opts.clone())
             }
             5 => (self.input.clone(), Opts::default()),
+            7 => {
+                // digits (or characters of the 45-set) derived from the input, with one character outside the forced
+                // mode at a position derived from the input: encoding stops there with the documented panic
+                let h = crate::engine::hash_bytes(&self.input);
+                let numeric = h % 2 == 0;
+                let n = 2 + (self.input.len() + (h >> 8) as usize % 7).min(600);
+                let mut v: Vec<u8> = (0..n)
+                    .map(|i| {
+                        let b = *self.input.get(i).unwrap_or(&b'9');
+                        if numeric {
+                            b'0' + (b % 10 + 9) % 10
+                        } else {
+                            refmodel::tables::ALNUM_SET[(b as usize * 7 + 44) % 45]
+                        }
+                    })
+                    .collect();
+                let at = if (h >> 4) % 3 == 0 { n - 1 } else { (h >> 16) as usize % n };
+                v[at] = if numeric { b'x' } else { b'q' };
+                (v, Opts { mode: Some(if numeric { Mode::Numeric } else { Mode::Alphanumeric }), level: self.opts.level, version: self.opts.version, mask: self.opts.mask })
+            }
+            8 => {
+                let mut o = self.opts.clone();
+                if self.input.len() > 20 {
+                    o.version = Some(1);
+                    (self.input.clone(), o)
+                } else {
+                    o.version = None;
+                    (vec![b'#'; 3000 + self.input.len()], o)
+                }
+            }
             _ => {
                 let mut v = self.input.clone();
                 v.push(same_class(*self.input.last().unwrap_or(&b'1')));
@@ -349,6 +382,28 @@ thread_local! {
 
 /// The same symbol as a value that previously held a larger one: `clone_from` onto a version-40 symbol. `Clone` is
 /// part of the public type, so every consumer (renderers included) must treat it exactly like the original.
+/// Copies of a symbol made through the public `Clone` implementation: `clone()`, `clone_from` onto a value that held a
+/// version-40 symbol, and `clone_from` onto a value that held a small symbol built with another level, another mask
+/// and another mode (so that no field of the destination agrees with the source by accident).
+pub fn copies(q: &QRCode) -> Vec<(&'static str, Box<QRCode>)> {
+    let mut out: Vec<(&'static str, Box<QRCode>)> = vec![("clone()", Box::new(q.clone())), ("clone_from() onto a version-40 symbol", recycled_copy(q))];
+    let lv = [ECL::L, ECL::M, ECL::Q, ECL::H];
+    let li = q.ecl.map(|e| level_of(e) as usize).unwrap_or(0);
+    let mk = q.mask.map(mask_no).unwrap_or(0);
+    let (content, mode): (&[u8], fast_qr::Mode) = match q.mode.map(mode_of) {
+        Some(Mode::Numeric) => (b"SLOT", fast_qr::Mode::Alphanumeric),
+        Some(Mode::Alphanumeric) => (b"slot", fast_qr::Mode::Byte),
+        _ => (b"5107", fast_qr::Mode::Numeric),
+    };
+    let other = catch(|| QRBuilder::new(content.to_vec()).ecl(lv[(li + 1 + (q.size / 4) % 3) % 4]).mask(f_mask((mk + 1 + (q.size as u8 / 4) % 7) % 8)).mode(mode).version(f_version(1 + (q.size / 4 + 3) % 6)).build());
+    if let Ok(Ok(o)) = other {
+        let mut slot = Box::new(o);
+        QRCode::clone_from(&mut slot, q);
+        out.push(("clone_from() onto a small symbol of another level, mask and mode", slot));
+    }
+    out
+}
+
 pub fn recycled_copy(q: &QRCode) -> Box<QRCode> {
     let mut slot = LARGE_SLOT.with(|l| l.clone());
     QRCode::clone_from(&mut slot, q);
